@@ -493,6 +493,12 @@ impl<'tcx> Exporter<'tcx> {
         let env = TypingEnv::post_analysis(tcx, did);
         let m = self.export_body(body, env);
         f.push(("mir", m));
+        let proms = tcx.promoted_mir(did);
+        let mut pv = Vec::new();
+        for pb in proms.iter() {
+            pv.push(self.export_body(pb, env));
+        }
+        f.push(("promoted", J::Arr(pv)));
         Some(J::obj(f))
     }
 
@@ -707,6 +713,12 @@ impl<'tcx> Exporter<'tcx> {
         let tcx = self.tcx;
         let t = c.ty();
         let mut f: Vec<(&str, J)> = vec![("k", J::s("const")), ("ty", self.ty(t))];
+        if let Const::Unevaluated(uv, _) = c {
+            if let Some(p) = uv.promoted {
+                f.push(("promoted", J::n(p.as_u32() as i128)));
+                return J::obj(f);
+            }
+        }
         // function items
         if let ty::FnDef(did, args) = *t.kind() {
             f.push(("fn", self.resolve(did, args, env)));
@@ -831,6 +843,26 @@ impl<'tcx> Exporter<'tcx> {
                 };
                 f.push(("kind", J::s(kind)));
                 if let Some(d) = idid {
+                    if let DefKind::Ctor(..) = tcx.def_kind(d) {
+                        // tuple struct / tuple variant constructor used as a function
+                        let vdid = tcx.parent(d);
+                        let (adt_did, variant) = match tcx.def_kind(vdid) {
+                            DefKind::Variant => (tcx.parent(vdid), Some(vdid)),
+                            _ => (vdid, None),
+                        };
+                        let def = tcx.adt_def(adt_did);
+                        let v = match variant {
+                            Some(vd) => def.variant_with_id(vd),
+                            None => def.non_enum_variant(),
+                        };
+                        let names: Vec<J> = v.fields.iter().map(|fd| J::s(fd.name.to_string())).collect();
+                        f.push(("ctor", J::obj(vec![
+                            ("adt", J::s(self.path(adt_did))),
+                            ("adt_kind", J::s(if def.is_enum() { "enum" } else { "struct" })),
+                            ("variant", J::s(v.name.to_string())),
+                            ("fields", J::Arr(names)),
+                        ])));
+                    }
                     f.push(("local", J::b(d.is_local())));
                     f.push(("key", J::s(self.fn_key(d))));
                     f.push(("path", J::s(self.path(d))));
